@@ -4,7 +4,8 @@ import BV.Lemmas.AdaptersStream
 The stream-machine model (M8) as an encoder of the adapters (M9): `streamEnc o`, and the proofs that
 it meets `EncSane` and `EncProgress` — so that `read_returns`, `write_returns`, `flush_returns`,
 `into_inner_returns`, `copy_terminates` hold for the MODELLED encoder, for every payload oracle `o`
-whose answers are bounded (`OracleBounded o B`: the one hypothesis that is left).
+— NO hypothesis on the oracle is left: the cross-call ranks are functions of the state alone
+(`rankPF`, `rankFl` over `stateCap`), and one call's potential runs with the per-call storage bound `callCap`.
 -/
 namespace BV.Adapters
 open BV.Stream
@@ -67,7 +68,7 @@ theorem streamEnc_step (o : Oracle) (s : Option St) (op : Op) (inp : Bytes) (cap
       show (if Good s0 ∧ s0.inputPos + inp.length < two64 then _ else _) = _
       rw [if_neg hg]
 
-theorem streamEnc_sane (o : Oracle) {B : Nat} (hB : OracleBounded o B) : EncSane (streamEnc o) := by
+theorem streamEnc_sane (o : Oracle) : EncSane (streamEnc o) := by
   constructor
   · intro s op inp cap
     rcases streamEnc_step o s op inp cap with h | ⟨s0, s', io', r, _, _, _, _, h⟩
@@ -77,23 +78,22 @@ theorem streamEnc_sane (o : Oracle) {B : Nat} (hB : OracleBounded o B) : EncSane
     rcases streamEnc_step o s op inp cap with h | ⟨s0, s', io', r, _, hG, hw, hc, h⟩
     · rw [h]; simp [deadAns]
     · rw [h]
-      have := (call_good (opCode_le op) hG hw hB (Nat.le_refl _) hc).1
+      have := (call_good (opCode_le op) hG hw hc).1
       show io'.out.length ≤ cap
       omega
 
 /-- rank of the wrapped state for PROCESS / FINISH requests, and for FLUSH requests -/
-def sRankPF (M : Nat) : Option St → Nat
-  | some s => rankPF M s
+def sRankPF : Option St → Nat
+  | some s => rankPF s
   | none => 0
-def sRankFl (M : Nat) : Option St → Nat
-  | some s => rankFl M s
+def sRankFl : Option St → Nat
+  | some s => rankFl s
   | none => 0
 
 def opsPF : Op → Prop := fun op => op = .process ∨ op = .finish
 def opsFl : Op → Prop := fun op => op = .flush
 
-theorem streamEnc_progress_pf (o : Oracle) {B : Nat} (hB : OracleBounded o B) :
-    EncProgress (streamEnc o) opsPF (sRankPF ((14 + 176 + B) / 8)) := by
+theorem streamEnc_progress_pf (o : Oracle) : EncProgress (streamEnc o) opsPF sRankPF := by
   constructor
   intro s op inp cap hops hcap hok hcons hdem
   rcases streamEnc_step o s op inp cap with h | ⟨s0, s', io', r, hs, hG, hw, hc, h⟩
@@ -102,10 +102,10 @@ theorem streamEnc_progress_pf (o : Oracle) {B : Nat} (hB : OracleBounded o B) :
     subst hs
     simp only at hok hcons hdem
     subst hok
-    obtain ⟨_, q2, _, q4⟩ := call_good (opCode_le op) hG hw hB (Nat.le_refl _) hc
+    obtain ⟨_, q2, _, q4⟩ := call_good (opCode_le op) hG hw hc
     have hav : io'.availIn = inp.length := by omega
     obtain ⟨g1, g2, _⟩ := q4 rfl hcap hav
-    show rankPF _ s' < rankPF _ s0
+    show rankPF s' < rankPF s0
     rcases hdem with ⟨h1, h2⟩ | ⟨h1, h2, h3⟩ | ⟨h1, _, _⟩
     · subst h1
       exact g1 rfl (fun hz => h2 (List.eq_nil_of_length_eq_zero hz))
@@ -114,8 +114,7 @@ theorem streamEnc_progress_pf (o : Oracle) {B : Nat} (hB : OracleBounded o B) :
     · subst h1
       rcases hops with h | h <;> cases h
 
-theorem streamEnc_progress_fl (o : Oracle) {B : Nat} (hB : OracleBounded o B) :
-    EncProgress (streamEnc o) opsFl (sRankFl ((14 + 176 + B) / 8)) := by
+theorem streamEnc_progress_fl (o : Oracle) : EncProgress (streamEnc o) opsFl sRankFl := by
   constructor
   intro s op inp cap hops hcap hok hcons hdem
   rcases streamEnc_step o s op inp cap with h | ⟨s0, s', io', r, hs, hG, hw, hc, h⟩
@@ -124,10 +123,10 @@ theorem streamEnc_progress_fl (o : Oracle) {B : Nat} (hB : OracleBounded o B) :
     subst hs
     simp only at hok hcons hdem
     subst hok
-    obtain ⟨_, q2, _, q4⟩ := call_good (opCode_le op) hG hw hB (Nat.le_refl _) hc
+    obtain ⟨_, q2, _, q4⟩ := call_good (opCode_le op) hG hw hc
     have hav : io'.availIn = inp.length := by omega
     obtain ⟨_, _, g3⟩ := q4 rfl hcap hav
-    show rankFl _ s' < rankFl _ s0
+    show rankFl s' < rankFl s0
     have hop : op = .flush := hops
     subst hop
     rcases hdem with ⟨h1, _⟩ | ⟨h1, _, _⟩ | ⟨_, h2, h3⟩
@@ -138,14 +137,14 @@ theorem streamEnc_progress_fl (o : Oracle) {B : Nat} (hB : OracleBounded o B) :
 
 /-- accepted calls keep the encoder inside the envelope: the state after a call that did not die is
 `Good` again (so the next call is not refused for the envelope's sake) -/
-theorem streamEnc_alive (o : Oracle) {B : Nat} (hB : OracleBounded o B) (s : Option St) (op : Op) (inp : Bytes) (cap : Nat)
+theorem streamEnc_alive (o : Oracle) (s : Option St) (op : Op) (inp : Bytes) (cap : Nat)
     (s' : St) (h : ((streamEnc o).step s op inp cap).1 = some s') : Good s' := by
   rcases streamEnc_step o s op inp cap with h1 | ⟨s0, s1, io', r, _, hG, hw, hc, h1⟩
   · rw [h1] at h; cases h
   · rw [h1] at h
     simp only [Option.some.injEq] at h
     subst h
-    exact (call_good (opCode_le op) hG hw hB (Nat.le_refl _) hc).2.2.1
+    exact (call_good (opCode_le op) hG hw hc).2.2.1
 
 theorem encodeWindowBits_le (lg : Int) (large : Bool) : (encodeWindowBits lg large).2 ≤ 14 := by
   unfold encodeWindowBits
